@@ -7,6 +7,7 @@ import tempfile
 import numpy as np
 from hypothesis import strategies as st
 
+from vk import gen
 from vk import models as M
 
 ID = "C05"
@@ -82,13 +83,24 @@ def chrom_names(case):
     return names
 
 
+def _offset(case):
+    if case["kind"] == "negative" and "offset" not in case:
+        import json
+        import zlib
+
+        return [0, 240000000, 2 ** 31 + 7, 2 ** 32 + 11][zlib.crc32(json.dumps(case, sort_keys=True, default=str).encode()) % 4]
+    return gen.offset_for(case)
+
+
 def bins_of(case):
     """-> (target bins, antitarget bins) as lists of (chrom, start, end, gene)"""
     t, a = [], []
     for c in chrom_names(case):
         bare = c[3:] if c.startswith("chr") else c
         n = case["nx"] if bare == "X" else case["ny"] if bare == "Y" else case["per_auto"]
-        pos = 3_000_000
+        # without a FASTA the panel may sit far up the chromosome (2.4e8, beyond 2^31): a pure function of the case
+        # (seeded change C05h compared bin coordinates with a relative tolerance, exact only below 1e9)
+        pos = 3_000_000 + (0 if case.get("fasta") else _offset(case))
         no_t = bare in ("X", "Y") and not case.get("t_sex", True) and case["anti"] == "full"
         for i in range(n):
             if not no_t:
